@@ -111,6 +111,53 @@ func randomScenario(rng interface{ Intn(int) int }, n int) (Cfg, Faults, int) {
 	if !c.Cont && rng.Intn(2) == 0 {
 		c.Start = -1
 	}
+	// the configured range, in one scenario out of three: start_index / end_index at 0, inside, equal to and beyond the
+	// source's STH (continuous mode too: it must ignore them), on a source that serves up to two entries more than the
+	// STH it announces covers
+	lagging := n%10 == 3 // one scenario in ten is the lagging front end for certain: one-shot, end_index beyond the STH, source ahead
+	if lagging {
+		c.Cont = false
+	}
+	if rng.Intn(3) == 0 || lagging {
+		top := c.Src0 + c.Growth
+		pickIdx := func() int {
+			switch rng.Intn(4) {
+			case 0: // inside
+				if c.Src0 > 1 {
+					return 1 + rng.Intn(c.Src0-1)
+				}
+				return 1
+			case 1: // equal to the first STH
+				return c.Src0
+			case 2: // beyond it, possibly within what the source serves
+				return c.Src0 + 1 + rng.Intn(3)
+			}
+			return top + 3 // beyond everything
+		}
+		if rng.Intn(3) > 0 {
+			c.End = pickIdx()
+		}
+		switch rng.Intn(4) {
+		case 0:
+			c.Start = pickIdx()
+		case 1:
+			c.Start = -1
+		case 2:
+			c.Start = 0
+		}
+		if c.Cont && c.Start < 0 {
+			c.Start = 0
+		}
+		if a := MaxN - top; a > 0 && (rng.Intn(4) > 0 || lagging) {
+			c.Ahead = 1 + rng.Intn(2)
+			if c.Ahead > a {
+				c.Ahead = a
+			}
+		}
+		if lagging {
+			c.End = c.Src0 + 1 + rng.Intn(3)
+		}
+	}
 	c.IDFunc = []string{"cert", "index"}[rng.Intn(2)]
 	c.Mode = []string{"run", "master", "master", "noop"}[rng.Intn(4)]
 	if c.Src0 >= 2 && rng.Intn(4) == 0 {
@@ -137,6 +184,8 @@ func randomScenario(rng interface{ Intn(int) int }, n int) (Cfg, Faults, int) {
 			first := 0
 			if c.Cont || c.Start < 0 {
 				first = c.DestInt
+			} else if c.Start > 0 {
+				first = c.Start
 			}
 			if n := (c.Src0 - first + c.Batch - 1) / c.Batch; n > 0 {
 				pass, start = 1, first+c.Batch*rng.Intn(n)
@@ -217,7 +266,7 @@ func TestTrace(t *testing.T) {
 	}
 	rep := vh.NewReport("c20-trace", "random scenarios (source sizes/growth/unparsable entries, destination empty/partial/full, batch, fetchers, submitters, one-shot/continuous, Run/RunWhenMaster, honest/forked source, counted fault scripts) on the real Controller under synctest virtual time and -race; every AddSequencedLeaves request and the final destination map judged index by index against the source by reference code; traces validated by MigrillianTrace.tla; non-trivial = distinct set of observed behaviour kinds")
 	rng := vh.Rand(2020)
-	nq, emptyPages, emptyAdds := 0, 0, 0
+	nq, emptyPages, emptyAdds, endBeyond, rangePasses := 0, 0, 0, 0, 0
 	scen := map[string]any{}
 	for i := 0; i < n; i++ {
 		c, f, restarts := randomScenario(rng, i)
@@ -262,6 +311,8 @@ func TestTrace(t *testing.T) {
 		rep.Eval(kindsKey(w))
 		emptyPages += w.emptyPages
 		emptyAdds += w.emptyAdds
+		endBeyond += w.endBeyond
+		rangePasses += w.rangePasses
 		if i < 3 {
 			rep.Sample(map[string]any{"cfg": c, "faults": f})
 		}
@@ -270,6 +321,8 @@ func TestTrace(t *testing.T) {
 	recQ.Close()
 	rep.Extra["empty_pages_served"] = emptyPages
 	rep.Extra["empty_requests_refused"] = emptyAdds
+	rep.Extra["passes_end_index_beyond_sth_source_ahead"] = endBeyond
+	rep.Extra["passes_with_configured_range"] = rangePasses
 	if b, err := json.Marshal(scen); err == nil {
 		_ = os.WriteFile(vh.OutDir()+"/scenarios.json", b, 0o644)
 	}
@@ -283,7 +336,7 @@ func TestTrace(t *testing.T) {
 // Beh is one behaviour exported by SimMigrillian.tla.
 type Beh struct {
 	Cfg struct {
-		Src0, Growth, DestLen, DestInt, Batch, Fetchers, Submitters, Start, ForkAt int
+		Src0, Growth, Ahead, DestLen, DestInt, Batch, Fetchers, Submitters, Start, End, ForkAt int
 		Bad                                                                        []int
 		Cont, Forked                                                               bool
 		Mode                                                                       string
@@ -309,7 +362,7 @@ type Beh struct {
 // schedule turns a behaviour into a scenario + counted fault script; clean = no cancellation, lost
 // mastership or fatal fault, so that the outcome is determined whatever the goroutine interleaving.
 func schedule(b Beh, idx int) (c Cfg, f Faults, restarts int, clean bool, covered bool) {
-	c = Cfg{Src0: b.Cfg.Src0, Growth: b.SrcSize - b.Cfg.Src0, Bad: append([]int{}, b.Cfg.Bad...), DestLen: b.Cfg.DestLen, DestInt: b.Cfg.DestInt,
+	c = Cfg{Src0: b.Cfg.Src0, Growth: b.SrcSize - b.Cfg.Src0, Ahead: b.Cfg.Ahead, End: b.Cfg.End, Bad: append([]int{}, b.Cfg.Bad...), DestLen: b.Cfg.DestLen, DestInt: b.Cfg.DestInt,
 		Batch: b.Cfg.Batch, Fetchers: b.Cfg.Fetchers, Submitters: b.Cfg.Submitters, Chan: idx % 3, Cont: b.Cfg.Cont, Start: b.Cfg.Start,
 		Forked: b.Cfg.Forked, ForkAt: b.Cfg.ForkAt, IDFunc: []string{"cert", "index"}[idx%2], Mode: b.Cfg.Mode}
 	f.init()
@@ -401,7 +454,7 @@ func TestReplay(t *testing.T) {
 		t.Fatal(err)
 	}
 	rep := vh.NewReport("c20-replay", "behaviours of Migrillian.tla (TLC simulation: scenario + environment choices) replayed as counted fault schedules into the real Controller; monitors on every request; for schedules without cancellation / lost mastership / fatal faults the return class, the destination domain and the consumption of the whole schedule are compared with the specification's behaviour; non-trivial = distinct set of behaviour kinds")
-	nclean, emptyPages, emptyAdds := 0, 0, 0
+	nclean, emptyPages, emptyAdds, endBeyond, rangePasses := 0, 0, 0, 0, 0
 	for i, b := range behs {
 		c, f, restarts, clean, covered := schedule(b, i)
 		sub := vh.NewReport("tmp", "")
@@ -453,6 +506,8 @@ func TestReplay(t *testing.T) {
 		rep.Eval(key)
 		emptyPages += w.emptyPages
 		emptyAdds += w.emptyAdds
+		endBeyond += w.endBeyond
+		rangePasses += w.rangePasses
 		if i < 2 {
 			rep.Sample(map[string]any{"cfg": c, "faults": f})
 		}
@@ -461,6 +516,8 @@ func TestReplay(t *testing.T) {
 	rep.Replayed = len(behs)
 	rep.Extra["empty_pages_served"] = emptyPages
 	rep.Extra["empty_requests_refused"] = emptyAdds
+	rep.Extra["passes_end_index_beyond_sth_source_ahead"] = endBeyond
+	rep.Extra["passes_with_configured_range"] = rangePasses
 	rep.Extra["clean"] = nclean
 	if err := rep.Write(); err != nil {
 		t.Fatal(err)
